@@ -90,6 +90,11 @@ instance : Repr Fq := ⟨fun a _ => repr a.val⟩
 /-- `Fp::new`: only values below the modulus -/
 def new (n : Nat) : Option Fq := if h : n < q then some ⟨n, h⟩ else none
 
+/-! `add_inplace` … of the `field_impl!` macro -/
+def add_inplace (a b : Fq) : Fq := a + b
+def sub_inplace (a b : Fq) : Fq := a - b
+def mul_inplace (a b : Fq) : Fq := a * b
+def neg_inplace (a : Fq) : Fq := -a
 def double (a : Fq) : Fq := a + a
 /-- `&self.double() + self` -/
 def triple (a : Fq) : Fq := a.double + a
